@@ -58,6 +58,20 @@ def localMaxima {K : Type} [LT K] [DecidableLT K] : Nat → List K → List Nat
     if a < b ∧ ¬ b < c then (i + 1) :: localMaxima (i + 1) (b :: c :: t) else localMaxima (i + 1) (b :: c :: t)
   | _, _ => []
 
+/-- Python's index normalisation on a sequence of `n` items: `i` for `0 ≤ i < n`, `n + i` for `-n ≤ i < 0`,
+    refused (`IndexError`) otherwise. -/
+def pyIndex? (n : Nat) (i : Int) : Option Nat :=
+  if 0 ≤ i then (if i < (n : Int) then some i.toNat else none)
+  else (if 0 ≤ (n : Int) + i then some ((n : Int) + i).toNat else none)
+
+/-- the images named by `climbindex` (integers counted from either end) on a string of `n` images. -/
+def climbImages? (n : Nat) : List Int → Option (List Nat)
+  | [] => some []
+  | c :: cs =>
+    match pyIndex? n c, climbImages? n cs with
+    | some a, some t => some (a :: t)
+    | _, _ => none
+
 /-- the climbing images chosen by `relax(climbpoints=cp)`: the first `cp` interior local maxima. -/
 def climbIndices {K : Type} [LT K] [DecidableLT K] (cp : Nat) (E : List K) : List Nat :=
   (localMaxima 0 E).take cp
